@@ -43,7 +43,8 @@ func LinearAttempt(ctx context.Context, rate time.Duration, count int) <-chan ti
 		close(c)
 		return c
 	}
-	c <- time.Now()
+	last := time.Now()
+	c <- last
 	count--
 	if count <= 0 {
 		close(c)
@@ -68,9 +69,14 @@ func LinearAttempt(ctx context.Context, rate time.Duration, count int) <-chan ti
 				return
 			}
 			verifAt("attempt.send", nil, i)
+			// NOTE: the values from the ticker are not guaranteed to be monotonic (especially for very small rates)
+			if t.Before(last) {
+				t = last
+			}
 			select {
 			case c <- t:
 				i++
+				last = t
 			default:
 				// slow consumer, retry send next tick
 			}
